@@ -126,7 +126,8 @@ func parseRoot(bag []byte) (*boc.Cell, error) {
 }
 
 // Decode runs the three public entry points on the content stored in the bag (a fresh parse for each, cells carry
-// read cursors): DecodeFullContentFromCell; tlb.Unmarshal into tlb.FullContent + DecodeFullContent; ConvertOnchainData.
+// read cursors): DecodeFullContentFromCell; tlb.Unmarshal into tlb.FullContent + DecodeFullContent; ConvertOnchainData;
+// DecodeFullContent called a second time on the same tlb.FullContent value.
 func Decode(bagHex string) (ev.M, error) {
 	bag, err := hex.DecodeString(bagHex)
 	if err != nil {
@@ -135,7 +136,7 @@ func Decode(bagHex string) (ev.M, error) {
 	if _, err := parseRoot(bag); err != nil {
 		return nil, fmt.Errorf("the bag does not parse: %w", err)
 	}
-	var g1, g2, g3 ev.M
+	var g1, g2, g3, g4 ev.M
 	guard(&g1, func() ev.M {
 		root, _ := parseRoot(bag)
 		return project(tep64.DecodeFullContentFromCell(root))
@@ -166,7 +167,46 @@ func Decode(bagHex string) (ev.M, error) {
 		b["fields"], b["img_nil"] = metaFields(&meta)
 		return b
 	})
-	return ev.M{"go": g1, "go2": g2, "conv": g3}, nil
+	// a tlb.FullContent is a value: decoding it a second time must give the same answer
+	guard(&g4, func() ev.M {
+		root, _ := parseRoot(bag)
+		var c tlb.FullContent
+		if err := tlb.Unmarshal(root, &c); err != nil {
+			b := blank()
+			b["ran"] = false
+			return b
+		}
+		_, _ = tep64.DecodeFullContent(c)
+		return project(tep64.DecodeFullContent(c))
+	})
+	return ev.M{"go": g1, "go2": g2, "conv": g3, "go3": g4}, nil
+}
+
+// DecodeText runs tlb.Unmarshal into tlb.Text on the root of the bag.
+func DecodeText(bagHex string) (ev.M, error) {
+	bag, err := hex.DecodeString(bagHex)
+	if err != nil {
+		return nil, err
+	}
+	root, err := parseRoot(bag)
+	if err != nil {
+		return nil, fmt.Errorf("the bag does not parse: %w", err)
+	}
+	g := ev.M{"ok": false, "err": "", "msg": "", "panic": "", "val": ""}
+	func() {
+		defer func() {
+			if r := recover(); r != nil {
+				g = ev.M{"ok": false, "err": "", "msg": "", "panic": fmt.Sprint(r), "val": ""}
+			}
+		}()
+		var t tlb.Text
+		if err := tlb.Unmarshal(root, &t); err != nil {
+			g["err"], g["msg"] = "e", err.Error()
+			return
+		}
+		g["ok"], g["val"] = true, hex.EncodeToString([]byte(t))
+	}()
+	return ev.M{"go": g}, nil
 }
 
 // Meta is an abstract Metadata value as exchanged with the specification.
